@@ -98,6 +98,11 @@ func (interp *Interpreter) gta(root *node, rpath, importPath, pkgName string) ([
 					err = n.cfgErrorf("use of untyped nil")
 					return false
 				}
+				if n.anc.kind != constDecl {
+					// A variable initialized by an untyped constant takes the default type of this
+					// constant: a function using it may be compiled before the variable declaration.
+					typ = typ.defaultType(val, sc)
+				}
 				if typ.isBinMethod {
 					typ = valueTOf(typ.methodCallType(), isBinMethod(), withScope(sc))
 				}
